@@ -33,15 +33,37 @@ def run_impl(sc):
                 states = [getattr(group, f"s{k}") for k in range(n_)]
                 attrs = {"states_": group}
             else:
-                states = [State(initial=i, final=f) for (i, f) in sc["states"]]
+                dup = sc.get("dup_names") or []
+                states = [State(*(["Step"] if k in dup else []), initial=i, final=f) for k, (i, f) in enumerate(sc["states"])]
                 attrs = {f"s{k}": st for k, st in enumerate(states)}
             states = states + [State() for _ in range(3)]      # targets that never become states of the class
+            shared_any = {}
+            if sc.get("shared_any") and sc["any"]:
+                # the from_.any() declarations are module-level objects also used by another, unrelated class that
+                # is defined first (same state ids, its own State objects - only the any()-targets are shared)
+                tg = {t for t, _i in sc["any"]}
+                twin = [states[k] if k in tg else State(initial=i, final=f) for k, (i, f) in enumerate(sc["states"])]
+                twin = twin + states[n_:]
+                pattrs = {f"s{k}": st for k, st in enumerate(twin[:n_])}
+                for k, (t, internal) in enumerate(sc["any"]):
+                    shared_any[k] = states[t].from_.any(internal=bool(internal))
+                    pattrs[f"a{k}"] = shared_any[k]
+                try:
+                    with warnings.catch_warnings():
+                        warnings.simplefilter("ignore")
+                        for j, (s, t, internal, hasev) in enumerate(sc["trans"]):
+                            tl = twin[s].to(twin[t], internal=bool(internal))
+                            if hasev:
+                                pattrs[f"e{j}"] = tl
+                        type(StateMachine)("P", (StateMachine,), pattrs)
+                except Exception:  # noqa: BLE001 - whether the other class is valid does not matter here
+                    pass
             for j, (s, t, internal, hasev) in enumerate(sc["trans"]):
                 tl = states[s].to(states[t], internal=bool(internal))
                 if hasev:
                     attrs[f"e{j}"] = tl
             for k, (t, internal) in enumerate(sc["any"]):
-                attrs[f"a{k}"] = states[t].from_.any(internal=bool(internal))
+                attrs[f"a{k}"] = shared_any[k] if k in shared_any else states[t].from_.any(internal=bool(internal))
             type(StateMachine)("M", (StateMachine,), attrs, strict_states=bool(sc["strict"]))
         except InvalidDefinition:
             return 2
@@ -106,6 +128,11 @@ def render_source(sc):
         lines.append(f"    e{j} = {call}" if hasev else f"    {call}")
     for k, (t, internal) in enumerate(sc["any"]):
         lines.append(f"    a{k} = s{t}.from_.any(internal={bool(internal)})")
+    if sc.get("dup_names"):
+        lines.append(f"# states {sc['dup_names']} are declared with the same display name: State('Step', ...)")
+    if sc.get("shared_any"):
+        lines.append("# the from_.any() objects (and their target states) are module-level and also used by a class P with the "
+                     "same state ids, defined first")
     if sc.get("split") is not None:
         lines.append(f"# also run as: class Base with the states and the first {sc['split']} transitions; class M(Base) adding "
                      "the rest (every third one under an event name of the base) and the from_.any() declarations")
@@ -248,6 +275,10 @@ def generate(rng, tier):
         else:
             if rng.random() < 0.3:
                 d["via_enum"] = True
+            elif rng.random() < 0.3 and len(d["states"]) >= 2:
+                d["dup_names"] = rng.sample(range(len(d["states"])), rng.randint(2, len(d["states"])))   # states sharing a display name
+            if d["any"] and not d.get("via_enum") and all(tr[0] != t_ for tr in d["trans"] for t_, _i in d["any"]) and rng.random() < 0.7:
+                d["shared_any"] = True
             if rng.random() < 0.15:
                 # a transition whose target is a State object that is not a state of the class
                 d["trans"].insert(rng.randint(0, len(d["trans"])), [rng.randrange(len(d["states"])), len(d["states"]), 0, 1])
